@@ -26,6 +26,7 @@ EXPLANATION = (
     "equality against a register file is not decided."
     ' (R5) an id listed twice by sensors() must resolve to the last definition in _get_sensor, as the bulk dictionary does.'
     " (R5 bulk-last-wins) _map_response stores what each row's read() returned unconditionally, so for an id listed twice the bulk value is the one of the definition _get_sensor resolves."
+    ' (R5) _get_sensor must resolve ids over the current sensors() (understood lookup) in every family; (R6, shared with C14.R1) bulk values are decoded from fetched registers.'
 )
 
 
@@ -167,7 +168,9 @@ def r5(ctx: Ctx, rep: Report, tabs):
                 seen[r.id_] = r
         sem = lookup_semantics(ctx, gs)
         if not dups:
-            rep.ok("C16.R5", "dup-lookup:%s" % famname, gs.loc(), "%s lists no id twice" % famname)
+            # no id is listed twice: any lookup over the current sensors() will do - but it has to be one
+            rep.check(sem in ("last", "first"), "C16.R5", "dup-lookup:%s" % famname, gs.loc(), "%s lists no id twice; _get_sensor resolves ids over the current sensors() (%s match)" % (famname, sem),
+                      bad="%s._get_sensor does not look the id up in (a map built from) the current sensors(): ids that sensors() lists are unknown to read_sensor(), or resolved from a stale map" % famname)
             continue
         a, b = dups[0]
         rep.check(sem == "last", "C16.R5", "dup-lookup:%s" % famname, gs.loc(),
